@@ -438,6 +438,12 @@ object_t* load_object (const char *mudlib_filename, const char *pre_text) {
           * Replace the object's name with the requested name and update it in the object hash table.
           */
           ob = v->u.ob;
+          /* compile_object() is LPC code: it can have loaded this very name itself (a
+           * create() that asks for the object being made). The table holds one object per
+           * name: a second one would not be entered, and when it is destructed
+           * remove_object_hash() would unlink the wrong chain. */
+          if (lookup_object_hash (name) && lookup_object_hash (name) != ob)
+            error ("*Virtual object name '/%s' duplicates an existing object name.", name);
           remove_object_hash (ob);
           if (ob->name)
             FREE (ob->name);
